@@ -251,6 +251,9 @@ case("F59 complex min of a chunked array", lambda: groupby_reduce(da.from_array(
 # F60
 case("F60 nanargmax of a 2-D in-memory array with a NaN fill", lambda: groupby_reduce(np.arange(6, dtype=np.float32).reshape(3, 2), np.zeros(2, int), func="nanargmax", fill_value=np.nan)[0].tolist(), lambda r: r == [[1.0], [1.0], [1.0]])
 
+# F61
+case("F61 chunked nancumsum with a missing label", lambda: groupby_scan(da.from_array(np.arange(5, dtype=np.float32), chunks=1), np.array([2.0, 1.0, np.nan, 0.0, 0.0]), func="nancumsum").compute(), lambda r: False, refusal_ok=True)
+
 bad = 0
 for name, verdict in results:
     print(f"{name:55s} {verdict}")
